@@ -805,15 +805,27 @@ pub fn run(setup: RunSetup, main: impl FnOnce() + Send + 'static) -> RunReport {
         inner.threads[0].sem.post();
     }
     let mut inner = kernel.lock();
-    let start = std::time::Instant::now();
+    // The real-time watchdog counts *observed* 200 ms waits during which the run made no step,
+    // not elapsed wall-clock time: a machine that is paused or snapshotted for minutes (it
+    // happens to this sandbox) must not make every run in flight look frozen.
+    let idle_limit = (wall.as_millis() / 200).max(1) as u64;
+    let (mut idle_ticks, mut last_steps) = (0u64, inner.steps);
     while inner.outcome.is_none() {
         let (g, to) = kernel
             .done_cv
             .wait_timeout(inner, Duration::from_millis(200))
             .unwrap_or_else(|e| e.into_inner());
         inner = g;
-        if to.timed_out() && start.elapsed() > wall && inner.outcome.is_none() {
-            inner.outcome = Some(Outcome::WallTimeout);
+        if to.timed_out() && inner.outcome.is_none() {
+            if inner.steps == last_steps {
+                idle_ticks += 1;
+            } else {
+                idle_ticks = 0;
+                last_steps = inner.steps;
+            }
+            if idle_ticks > idle_limit {
+                inner.outcome = Some(Outcome::WallTimeout);
+            }
         }
     }
     let leaked = inner.threads.iter().filter(|t| !matches!(t.state, TState::Finished)).count();
